@@ -521,4 +521,5 @@ func c11Driver(d *fw.D) {
 			d.Inconclusive("call-built family: counter " + c + " is 0")
 		}
 	}
+	c11CallFormFloor(d)
 }
